@@ -100,11 +100,27 @@ class Condition(Notification):
 
 class Connective(Condition):
     """Logical connection of sub-conditions"""
-    __slots__ = ('_children',)
+    __slots__ = ('_children', '_watcher')
 
     def __init__(self, *conditions: Condition):
         super().__init__()
         self._children = conditions
+        self._watcher = None
+
+    def __subscribe__(self, waiter: Coroutine, interrupt: CoreInterrupt):
+        super().__subscribe__(waiter, interrupt)
+        # nothing triggers a connective by itself: while there are subscribers,
+        # have a helper activity wait for the children and trigger us
+        if self._waiting and self._watcher is None:
+            self._watcher = self._async_trigger()
+            __USIM_STATE__.loop.schedule(self._watcher)
+
+    async def _async_trigger(self):
+        try:
+            await self.__await_children__()
+        finally:
+            self._watcher = None
+        self.__trigger__()
 
     def __await__(self) -> Generator[AnyT, None, bool]:
         return (yield from self.__await_children__().__await__())  # noqa: B901
